@@ -31,6 +31,8 @@ import Pog.Lemmas.GenCode
     sorted_props_is_sorted                 required properties first, each group in ascending code-point order, a permutation of the properties
 -/
 -- MODULE Pog.Props.C02b
+-- MODULE Pog.Props.C02c
+-- INDEX Pog.C02c: parse_perm_invariant_partial3
 -- INDEX Pog.C02b: parse_perm_invariant_partial2
 -- INDEX Pog.DcProps: sorted_props_is_sorted, sorted_props_order_independent, sorted_props_required_order_independent, generate_order_independent
 /-
